@@ -29,6 +29,7 @@ CDEP = {
     "lcao_convolutions": "ciderpress.dft.lcao_convolutions",
     "lcao_nldf_generator": "ciderpress.dft.lcao_nldf_generator",
     "lcao_interpolation": "ciderpress.dft.lcao_interpolation",
+    "sdmx": "ciderpress.pyscf.sdmx",
     "grids_indexer": "ciderpress.dft.grids_indexer",
     "gen_cider_grid": "ciderpress.pyscf.gen_cider_grid",
 }
